@@ -334,13 +334,14 @@ fn prf_round(rng: &mut Rng, out: &mut Out, big: bool, emit_cases: bool) {
             out.violation("prf-panics", input.clone(), "PRF evaluation panicked on a 16-byte key".into());
         }
     }
-    // different (key, iv), same type, at least 16 output bytes: values differ
+    // different (key, iv), same type, at least 16 random output bytes: values differ
+    // (permutations excluded: n! may be small)
     let firsts: Vec<(&(Vec<u8>, u64, String), &Outcome<Value>)> = first.iter().collect();
     for a in 0..firsts.len() {
         for b in a + 1..firsts.len() {
             let ((k1, iv1, w1), r1) = firsts[a];
             let ((k2, iv2, w2), r2) = firsts[b];
-            if w1 == w2 && (k1, iv1) != (k2, iv2) {
+            if w1 == w2 && !w1.starts_with("perm ") && (k1, iv1) != (k2, iv2) {
                 if let (Outcome::Ok(v1), Outcome::Ok(v2)) = (r1, r2) {
                     if total_bytes(v1) >= 16 {
                         if v1 == v2 {
@@ -654,7 +655,7 @@ fn prng_round(rng: &mut Rng, out: &mut Out, big: bool, emit_cases: bool) {
 pub fn run(tier: &str, seed: u64, out: &mut Out) {
     let mut rng = Rng::new(seed ^ 0xC15);
     let (rounds, big_rounds, prng_rounds, emit) = match tier {
-        "thorough" => (120, 40, 500, true),
+        "thorough" => (80, 24, 420, true),
         "search" => (600, 60, 3000, false),
         _ => (14, 5, 60, true),
     };
